@@ -52,6 +52,19 @@ CHECKS.update({
         design="3/C13"),
 })
 
+CHECKS.update({
+    "C10": dict(
+        technique="property-based testing: exhaustive kind x required x nullable-notation x default x position matrix (packed) plus Hypothesis-drawn cell packs; signature/annotation/decode/encode/transmission oracles",
+        text="Every applicable cell of the matrix (~420 cells, all four nullable notations, both enum styles, model/query/header/cookie positions) is generated and checked: mandatory vs defaulted constructor/function parameter, annotation admits None iff nullable and Unset iff optional, absent reads back UNSET and is not encoded/sent, null decodes to None and re-encodes as null, a present value stays distinct. Random packs vary which cells share a document.",
+        note="nullable is computed from the cell with JSON-Schema semantics (enum + nullable:true without null member is not nullable); parameters have no null wire form so only signature/type/transmission are checked there",
+        design="3/C10"),
+    "C18": dict(
+        technique="property-based testing: exhaustive sweep over identifiers harvested at run time from the generator's own output, metamorphic round-trip / wire oracle against fixed shapes",
+        text="~1800 candidate names (every identifier the generated modules use themselves, keywords, builtins, case/underscore variants, 50 controls) are each placed in six model shapes and in four parameter locations with and without a body; decode/encode round trips and captured requests must be exactly what the shape prescribes under that wire name.",
+        note="list is harvested from the tree under test so it follows template edits; candidates refused with a diagnostic are counted not judged",
+        design="3/C18"),
+})
+
 NOT_YET = {}
 
 def main():
